@@ -129,6 +129,21 @@ impl HeaderPrefix {
         max_table_size: usize,
     ) -> Result<(usize, usize), ParseError> {
         if max_table_size == 0 {
+            // A table of capacity 0 never holds an entry: MaxEntries and the full range of
+            // the Required Insert Count are 0, so the only value a conformant encoder can
+            // send is 0 (4.5.1.1).
+            if self.encoded_insert_count != 0 {
+                return Err(ParseError::Integer(prefix_int::Error::Overflow));
+            }
+            // With a Required Insert Count of 0, a sign bit of 1 gives a negative Base
+            // (4.5.1.2).
+            if self.sign_negative {
+                return Err(ParseError::InvalidBase(
+                    isize::try_from(self.delta_base)
+                        .map(|delta| -1 - delta)
+                        .unwrap_or(isize::MIN),
+                ));
+            }
             return Ok((0, 0));
         }
 
